@@ -7,6 +7,16 @@ VERIF = os.path.dirname(os.path.dirname(os.path.abspath(__file__)))
 
 # id -> (level, technique, level text, level note, design ref)
 CLAIMED = {
+    "C13": ("exploration",
+            "deterministic simulation: unknown field codes / flag bits / type codes injected into a live stream with a pending call, seeded splits and schedules; thorough enumerates all 2467 variants",
+            "A scripted peer places one message with an unknown header field (code 10..255 x 8 value types), unknown flag bits or an unknown type code between normal traffic while a method call is pending and another is made afterwards; the stream must yield the neighbours (and the message itself unless its type is unknown) intact, report only known flags, yield no error and both calls must succeed.",
+            "One unknown element per message; combinations of several unknown elements in one message are not generated.",
+            "DESIGN.md §3 C13"),
+    "C38": ("fault_enumeration",
+            "deterministic simulation with exhaustive fault placement: EOF / half-close EOF / ECONNRESET at every inbound byte offset and EPIPE at every early write call of scripted sessions, several seeded schedules each",
+            "For two fixed sessions (pending calls, unfiltered + rule stream, object server, then a late call and subscription) every inbound byte offset x {EOF whole socket, EOF inbound half, ECONNRESET} and the first 6 write calls x EPIPE are enumerated under 4 seeded schedule/read-split profiles each; thorough adds seeded random sessions. Oracle: streams yield exactly what was completely received before the failure, optionally one error, then end; pending calls complete accordingly; later work fails; quiescence with an open obligation is a hang.",
+            "Fault positions are exhaustive for the fixed sessions; schedules per position are sampled.",
+            "DESIGN.md §3 C38"),
     "C18": ("exploration",
             "deterministic simulation: concurrent sender tasks under a seeded scheduler over a transport with partial writes, stalls, back-pressure and write errors; captured stream checked by an independent framer",
             "2..6 sender tasks using every send API race for the write half while the simulated transport accepts partial writes, returns Pending between the pieces of one message, applies back-pressure and (separately) fails a write; the captured byte/fd stream must parse into exactly the sent messages, whole, fds at frame starts, per-sender order kept.",
